@@ -414,6 +414,26 @@ pub fn session(seed: u64, i: usize, tier: Tier, which: Which, progress: &crate::
         // tab of the settings, walk down the list (possibly to its end), move / toggle columns
         if burst.is_empty() && r.chance(1, 60) {
             let find = |n: &str| keys.iter().find(|(k, _)| *k == n).copied();
+            // (the other kind of burst: select a hop far down, freeze the display, open the flows
+            // panel and switch between flows of different lengths)
+            if r.chance(1, 2) {
+                if let (Some(down), Some(freeze), Some(flows), Some(next), Some(prev), Some(esc)) = (find("next_hop"), find("toggle_freeze"), find("toggle_flows"), find("next_trace"), find("previous_trace"), find("clear_selection")) {
+                    burst.push_back(esc);
+                    for _ in 0..r.range(1, 30) {
+                        burst.push_back(down);
+                    }
+                    if r.chance(2, 3) {
+                        burst.push_back(freeze);
+                    }
+                    burst.push_back(flows);
+                    for _ in 0..r.range(1, 5) {
+                        burst.push_back(*r.pick(&[next, next, prev]));
+                    }
+                    if r.chance(1, 2) {
+                        burst.push_back(freeze);
+                    }
+                }
+            } else
             if let (Some(open), Some(down), Some(mv_down), Some(mv_up), Some(toggle)) = (find("toggle_settings_columns"), find("next_hop"), find("next_hop_address"), find("previous_hop_address"), find("toggle_chart")) {
                 burst.push_back(open);
                 for _ in 0..*r.pick(&[0u64, 1, 5, 26, 27, 30]) {
